@@ -4,6 +4,7 @@ import (
 	"fmt"
 	"go/token"
 	"go/types"
+	"htcheck/internal/zone"
 	"sort"
 	"strings"
 
@@ -156,6 +157,7 @@ func lockReleaseRule(c *Ctx, rule string, fns []*ssa.Function, floor int, floorW
 			}
 			reach := InstrReachFrom(fn, call, nil, stop)
 			bad := ""
+			var zp *zone.Prover
 			for _, b := range fn.Blocks {
 				for _, in := range b.Instrs {
 					if !reach(in) || stop(in) || in == ssa.Instruction(call) {
@@ -167,6 +169,16 @@ func lockReleaseRule(c *Ctx, rule string, fns []*ssa.Function, floor int, floorW
 					case *ssa.Panic:
 						if !isSyntheticPanic(x) {
 							bad = "an explicit panic at " + p.InstrPos(x) + " leaves the critical section with the mutex held"
+						}
+					case *ssa.Slice, *ssa.IndexAddr, *ssa.Index:
+						// an index or slice expression the prover cannot show in range panics just the same
+						if zp == nil {
+							zp = zone.New(fn)
+						}
+						for _, o := range zp.Obligations(in) {
+							if okP, why := zp.Prove(o, in); !okP {
+								bad = "the critical section evaluates `" + RenderN(in.(ssa.Value), 3) + "` at " + p.InstrPos(in) + ", which is not provably in range (" + o.What + ": " + why + "); the Unlock is not deferred, so after the connection's recover the mutex stays locked for every later connection"
+							}
 						}
 					case ssa.CallInstruction:
 						if _, isGo := x.(*ssa.Go); isGo {
